@@ -90,3 +90,11 @@ package repl
 //@   property C20
 //@   on-call OpenFile starts-empty: hasbits($arg1, os.O_TRUNC)
 //@   on-call Write one-tab-record-per-form: $arg0_from == "TabAppend"
+
+// C20: a changed setting is saved under its own name only. The set hook runs a
+// second time with the package-qualified name; saving that as well wrote a
+// second line whose value (looked up in the user package) is nil and which
+// overrode the setting, or stopped the REPL, at the next start.
+//@ func repl.setHook
+//@   property C20
+//@   on-call updateConfigFile own-name-only: !contains(key, ":")
